@@ -661,12 +661,16 @@ def mc_reader(tier, seed):
         r = vlib.run_mc("MC_Reader", cfg, workers=1, timeout=300)
         r["module"] = "MC_Reader[W=%d]" % w
         res.append(r)
-    if tier == "thorough":
-        for impl in ("single", "ignoreerr"):
+    # negative controls: loops that are not io.ReadFull (thorough: all four; quick: the two shaped after seeded changes C06l, C14l)
+    for impl in (("single", "ignoreerr", "atleastwords", "retryeof") if tier == "thorough" else ("atleastwords", "retryeof")):
+        if impl == "retryeof":      # never returns on a finite source that ends early: a liveness violation
+            cfg = 'SPECIFICATION Spec\nCONSTANTS W = 12 ReadImpl = "%s" MaxStutter = 1\nPROPERTY Terminates\nCHECK_DEADLOCK FALSE\n' % impl
+            r = vlib.run_mc("MC_Reader", cfg, workers=1, timeout=300, expect_violation="Terminates")
+        else:
             cfg = 'SPECIFICATION Spec\nCONSTANTS W = 12 ReadImpl = "%s" MaxStutter = 1\nINVARIANTS FailClosed\nCHECK_DEADLOCK FALSE\n' % impl
             r = vlib.run_mc("MC_Reader", cfg, workers=1, timeout=300, expect_violation="FailClosed")
-            r["module"] = "MC_Reader[%s control]" % impl
-            res.append(r)
+        r["module"] = "MC_Reader[%s control]" % impl
+        res.append(r)
     return res
 
 
